@@ -190,6 +190,14 @@ type ContractFile struct {
 	TypeInvs    []*GuardDecl
 	Immutable   []string
 	Stable      []string // fields only written by functions under contract (checked by a census); kept across havoc
+	Writers     []*WritersDecl // writers S.f [Cxx] : F1 F2 - the only functions that may assign the field (syntactic census)
+}
+
+// WritersDecl: a closed list of the functions that may assign a field.
+type WritersDecl struct {
+	Field string
+	Props []string
+	Funcs []string
 }
 
 var reName = regexp.MustCompile(`^([A-Za-z_][A-Za-z0-9_.\-]*):\s+(.*)$`)
@@ -561,6 +569,22 @@ func (cf *ContractFile) parseOne(path string) error {
 			}
 		case "stable":
 			cf.Stable = append(cf.Stable, strings.Fields(rest)...)
+		case "writers":
+			// writers S.f [C08,C09] : F1 F2
+			l, r, ok := strings.Cut(rest, ":")
+			lf := strings.Fields(l)
+			if !ok || len(lf) < 1 {
+				return fail(fmt.Errorf("writers S.f [PROPS] : FUNC..."))
+			}
+			wd := &WritersDecl{Field: lf[0], Funcs: strings.Fields(r)}
+			if len(lf) > 1 {
+				for _, p := range strings.Split(strings.Trim(strings.Join(lf[1:], ""), "[]"), ",") {
+					if p = strings.TrimSpace(p); p != "" {
+						wd.Props = append(wd.Props, p)
+					}
+				}
+			}
+			cf.Writers = append(cf.Writers, wd)
 		case "immutable":
 			cf.Immutable = append(cf.Immutable, strings.Fields(rest)...)
 		case "typeinv":
